@@ -16,6 +16,12 @@ import onnx_ir as ir
 from onnx import TensorProto, helper, numpy_helper
 
 OPSET = 20
+OPSETS = (20, 17)     # the default-domain operator set version rotates over the programs (per-version schemas differ:
+                      # Split has num_outputs from 18, Cast has saturate from 19)
+
+
+def opset_of(variant: int) -> int:
+    return OPSETS[(variant // 2) % len(OPSETS)]
 LOCAL = "local"
 CONSTS = {
     "c1": np.array([[1.0, 2.0]], dtype=np.float32),
@@ -59,6 +65,10 @@ class _Namer:
     def out(self, g, i, o) -> str:
         if self.collide and (g in self.fbodies or g in self.then_bodies):
             return f"t{i}_{o}"
+        if self.collide and g == 1:
+            # main-graph values named like the names a pass derives from "w" (w_1, w_2, ...): the initializers of
+            # the control-flow bodies are all called "w" in this variant (sibling scopes may repeat a name)
+            return f"w_{i}" if o == 1 else f"w_{i}_{o}"
         return f"g{g}_n{i}_o{o}"
 
     def ref(self, r) -> str:
@@ -70,6 +80,8 @@ class _Namer:
                 return ["in1", "in2", "cond"][i - 1]
             return f"g{g}_x{i}"
         if kind == "init":
+            if self.collide and g != 1 and g not in self.fbodies and i == 1:
+                return "w"
             return f"g{g}_init{i}"
         return self.out(g, i, o)
 
@@ -85,7 +97,7 @@ def _attrs(node, variant: int):
         else:
             out["value_floats"] = [float(x) for x in arr]
     elif not node["fn"]:
-        if op == "Split":
+        if op == "Split" and opset_of(variant_of_model[0]) >= 18:
             out["num_outputs"] = 2
         for name, val in node["attr"]:      # plain attributes of the other operators (integers or floats)
             if isinstance(val, str) and not val.startswith("@"):
@@ -168,11 +180,16 @@ def _make_graph(P, gid, nm: _Namer, variant: int):
     if nm.reverse_bodies:
         nodes = list(reversed(nodes))     # an unsorted nested body (input for the sorting pass only)
     outs = [_vinfo(P, nm, r) for r in g["outs"]]
-    inits = [numpy_helper.from_array(CONSTS[t], name=f"g{gid}_init{k}") for k, t in enumerate(g["inits"], start=1)]
+    inits = [numpy_helper.from_array(CONSTS[t], name=nm.ref(("init", gid, k, 0))) for k, t in enumerate(g["inits"], start=1)]
     return helper.make_graph(nodes, f"graph{gid}", [], outs, initializer=inits)
 
 
+variant_of_model = [0]     # the variant of the model being concretised (read by _attrs for version-dependent attributes)
+
+
 def concretize(P: dict, variant: int = 0, reverse_bodies: bool = False) -> onnx.ModelProto:
+    variant_of_model[0] = variant
+    opset = opset_of(variant)
     nm = _Namer(P, collide=(variant % 3 == 1), reverse_bodies=reverse_bodies)
     main = P["g"][0]
     nodes = _make_nodes(P, 1, nm, variant, False)
@@ -197,12 +214,12 @@ def concretize(P: dict, variant: int = 0, reverse_bodies: bool = False) -> onnx.
         fnodes = _make_nodes(P, f["body"], nm, variant, True)
         fn = helper.make_function(
             LOCAL, f"F{fi}", [f"g{f['body']}_x{k}" for k in range(1, f["nin"] + 1)], [nm.ref(r) for r in body["outs"]],
-            fnodes, opset_imports=[helper.make_opsetid("", OPSET)] + [
+            fnodes, opset_imports=[helper.make_opsetid("", opset)] + [
                 helper.make_opsetid(d, 1 if d == LOCAL else EXTRA_DOMAINS[d]) for d in sorted(_domains_of(P, f["body"]))],
             attributes=sorted({v[1:] for n in body["nodes"] for _, v in n["attr"] if isinstance(v, str) and v.startswith("@")}),
         )
         funcs.append(fn)
-    model = helper.make_model(graph, opset_imports=[helper.make_opsetid("", OPSET), helper.make_opsetid(LOCAL, 1)] + [
+    model = helper.make_model(graph, opset_imports=[helper.make_opsetid("", opset), helper.make_opsetid(LOCAL, 1)] + [
                                   helper.make_opsetid(d, EXTRA_DOMAINS[d]) for d in sorted(_domains_of(P, 1) - {LOCAL})],
                               functions=funcs, ir_version=10, producer_name="vf")
     return model
